@@ -8,7 +8,9 @@ EXTENDS Naturals, Sequences, TLC, Json, IOUtils
 Traces == JsonDeserialize(IOEnv.TRACE_FILE)
 
 Fail(tid, l, name) == PrintT(ToJson([tag |-> "fail", tid |-> tid, l |-> l, clause |-> name])) /\ FALSE
-Check(tid, l, name, cond) == cond \/ Fail(tid, l, name)
+\* IF, not \/ : inside an action TLC explores both disjuncts of a disjunction, which would print a failure
+\* for a clause that holds
+Check(tid, l, name, cond) == IF cond THEN TRUE ELSE Fail(tid, l, name)
 Accept(tid) == PrintT(ToJson([tag |-> "accept", tid |-> tid]))
 
 \* verdict of a one-event trace (a single call of a pure function): accept iff ok
